@@ -4,7 +4,8 @@ Engine E1 (product-space enumeration).  Alphabet: JONSWAP wind seas on the C08 (
 direction every 45 degrees x depth {inf, 20 m} x spectral grid x source-term pair {st4/st4, st4/st6} x
 rate-of-change spectrum {none, +/-10 % of the bulk dissipation inside the forced half plane, +/-10 %
 outside it}, inverted through `estimate_u10_from_source_terms` in batches of 1..8 spectra (the members
-with exactly zero dissipation and the empty spectrum are part of the batches).
+with exactly zero dissipation, bimodal seas and the empty spectrum are part of the batches; every batch mixes
+depths).
 
 Oracle: the balance B(u) = generation.bulk_rate(u, dir) + dissipation.bulk_rate - dE/dt|forced bins is
 re-evaluated through the public API (allowed: the property is the consistency of the inversion with
@@ -31,6 +32,14 @@ ASSUMPTIONS = [
     "the reference balance is evaluated through the public generation.roughness/bulk_rate/rate and dissipation.bulk_rate "
     "(roughness solved from the library's default first guess); the forced region of dE/dt is the set of bins with "
     "generation.rate > 0 at the same wind",
+    "a reference value is used only where the roughness it is built on satisfies rho u*^2 = tau(z0) to 1e-4 (checked "
+    "through generation.stress); where generation.roughness() stalls on a non-root (property C10) the balance is 'not "
+    "evaluable'. An open balance is reported only if the stress balance has exactly one root at that wind on a 200-point "
+    "scan of (e^-20, 1) (otherwise the inversion may sit on another roughness branch than the reference)",
+    "reported direction: compared with dissipation.mean_direction_degrees (1e-9 deg) and with an independent "
+    "wavenumber-weighted resultant of the public dissipation.rate field (1e-6 deg in deep water, 0.12 deg at finite "
+    "depth = the library's wavenumber tolerance); bimodal members make the weighting observable",
+    "harness seam: wind_inversion.ProgressBar is rebound to a context manager yielding None (no updater thread)",
     "delta = 0.05 m/s (five solver step tolerances, DESIGN section C11): a sign change of B on [u10-delta, u10+delta] or "
     "|B(u10)| <= 1e-3 |bulk dissipation| is accepted",
     "non-degeneracy premise: two adjacent points of a 0.5 m/s scan of B over [2, 40] m/s with finite values of opposite "
@@ -47,6 +56,8 @@ REQUIRED_CATEGORIES = [
 ]
 
 DELTA = 0.05
+RHO_AIR = 1.225
+KAPPA = 0.4
 GRIDS = {
     "g20x24": (0.04, 0.6, 20, 24),
     "g12x16": (0.04, 0.6, 12, 16),
@@ -230,11 +241,23 @@ def run_unit(unit):
 
         # ---- reference balance through the public API -------------------------------------------
         def balance(spec, dspec_vals, dsv, u, wdir):
-            """B(u) for every member of `spec` (NaN where not evaluable)."""
+            """B(u) for every member of `spec`; NaN where not evaluable, which includes the winds at which the
+            roughness returned by the public generation.roughness() does not satisfy the stress balance it is
+            defined by (property C10; the solver can stall on a non-root): a reference built on such a roughness
+            says nothing about the inversion."""
             uu, ww = da(spec, u), da(spec, wdir)
             z = gen.roughness(uu, ww, spec)
             bulk = np.asarray(gen.bulk_rate(spec, uu, ww, roughness_length=z).values, dtype=float)
             b = bulk + dsv
+            zv = np.asarray(z.values, dtype=float)
+            tau = np.asarray(gen.stress(spec, uu, ww, roughness_length=z)["stress"].values, dtype=float)
+            with np.errstate(invalid="ignore", divide="ignore"):
+                rus2 = RHO_AIR * (KAPPA * np.asarray(u, dtype=float) / np.log(10.0 / zv)) ** 2
+                z_is_root = np.abs(rus2 - tau) <= 1e-4 * rus2
+            nbad = int(np.sum(np.isfinite(zv) & ~z_is_root))
+            if nbad:
+                c.cat("reference_roughness_not_a_root_of_the_stress_balance", nbad)
+            b = np.where(z_is_root, b, np.nan)
             if dspec_vals is not None:
                 rate = np.asarray(gen.rate(spec, uu, ww, roughness_length=z).values, dtype=float)
                 with np.errstate(invalid="ignore"):
@@ -242,6 +265,32 @@ def run_unit(unit):
                 b = b - np.sum(np.where(active, dspec_vals, 0.0) * w2[None], axis=(1, 2))
                 b = np.where(np.all(np.isfinite(rate), axis=(1, 2)), b, np.nan)
             return b
+
+        def stress_balance_roots(i, u, wdir):
+            """number of sign changes of rho u*^2 - tau(z0) between adjacent evaluable points of a 200-point scan of
+            (e^-20, 1).  Points at which stress() raises are outside the domain of the balance function: the
+            library's roughness iteration cannot settle there either (it would raise), so they host no admissible
+            root."""
+            zs = np.exp(np.linspace(-20.0, 0.0, 202)[1:-1])
+            sN = make_2d(f, d, np.broadcast_to(E[i], (200,) + E[i].shape).copy(), depth=np.full(200, depth[i]))
+            try:
+                tau = np.asarray(gen.stress(sN, da(sN, np.full(200, u)), da(sN, np.full(200, wdir)),
+                                            roughness_length=da(sN, zs))["stress"].values, dtype=float)
+            except Exception:  # noqa  (some point is not evaluable: evaluate one at a time)
+                s1 = make_2d(f, d, E[[i]], depth=depth[[i]])
+                tau = np.full(200, np.nan)
+                for j, z0 in enumerate(zs):
+                    try:
+                        tau[j] = float(gen.stress(s1, da(s1, [u]), da(s1, [wdir]),
+                                                  roughness_length=da(s1, [z0]))["stress"].values[0])
+                    except Exception:  # noqa
+                        pass
+            F = RHO_AIR * (KAPPA * u / np.log(10.0 / zs)) ** 2 - tau
+            n = 0
+            for j in range(199):
+                if np.isfinite(F[j]) and np.isfinite(F[j + 1]) and F[j] * F[j + 1] < 0:
+                    n += 1
+            return n
 
         key0 = {"grid": g, "pair": pair, "dedt": variant}
         for i, (hs, fp, mean, dep, w) in enumerate(mem):
@@ -267,19 +316,17 @@ def run_unit(unit):
             # direction (well conditioned: dissipation is non-zero)
             c.cat("direction_checked")
             # tolerance of the reference direction: exact arithmetic in deep water; at finite depth the library's
-            # wavenumber carries its solver tolerance (relative error <= 2e-3, C07), which can turn the
-            # resultant of a two-lobed field by at most 2e-3 rad = 0.115 degrees; symmetric (unimodal) members
-            # have their direction fixed by symmetry whatever the weights
-            tol_ref = 1e-6 if (math.isinf(dep) or w > 0) else 0.12
-            want = refdir[i] if w < 0 else mean
+            # wavenumber carries its solver tolerance (relative error <= 2e-3, C07), which can turn the resultant
+            # by at most 2e-3 rad = 0.115 degrees.  (That the direction of a symmetric sea is its axis of symmetry
+            # is not demanded: the ST4 dissipation field is not exactly symmetric for N = 36, see C09.)
+            tol_ref = 1e-6 if math.isinf(dep) else 0.12
             if w < 0:
                 c.cat("direction_checked_bimodal")
             if not (np.isfinite(rdir[i]) and float(angle_diff(rdir[i], mdir[i])) <= 1e-9
-                    and float(angle_diff(rdir[i], want)) <= tol_ref and float(angle_diff(rdir[i], refdir[i])) <= max(tol_ref, 1e-6)):
+                    and float(angle_diff(rdir[i], refdir[i])) <= tol_ref):
                 c.violation(dict(key, check="direction"),
                             f"reported direction {rdir[i]!r}: dissipation.mean_direction_degrees gives {mdir[i]!r}, the "
                             f"reference weighted direction is {refdir[i]!r}"
-                            + (f", symmetry demands {mean}" if w > 0 else "")
                             + f" [{pair} Hs={hs} fp={fp} mean={mean} depth={dep} width={w} dedt={variant}]")
             if u10[i] != u10[i]:
                 c.cat("missing_result")
@@ -334,6 +381,12 @@ def run_unit(unit):
                 elif small:
                     c.cat("balance_closed_by_small_residual")
                 else:
+                    # the reference is unambiguous only if the stress balance that defines the roughness has one
+                    # root at this wind (otherwise the inversion may legitimately sit on another branch)
+                    nroots = stress_balance_roots(i, float(u10[i]), float(rdir[i]))
+                    if nroots != 1:
+                        c.cat("balance_open_but_roughness_ambiguous" if nroots > 1 else "balance_open_but_no_roughness_root_on_scan")
+                        continue
                     flat = bool(np.all(np.abs(b - diss[i]) <= 1e-9 * abs(diss[i])))
                     c.violation(
                         dict(key, check="balance"),
